@@ -1,9 +1,11 @@
 /-
 QV.Lemmas.Stats — helper lemmas for C13: list sums over ℝ, the `collect` traversal, structure of the sampling
-schedule `draws`, and the projection of `System.statistics`' fold onto one observable.
+schedule `draws`, the projection of `System.statistics`' fold onto one observable, and the name-keyed dictionary of `System.__init__`.
 -/
 import Mathlib.Algebra.BigOperators.Group.List.Basic
 import Mathlib.Data.Real.Basic
+import Mathlib.Data.List.Basic
+import Mathlib.Data.List.Nodup
 import Mathlib.Tactic.Ring
 import Mathlib.Tactic.Linarith
 import QV.Real
@@ -154,4 +156,239 @@ theorem draws_untouched (env : Env σ) (ident : σ → Nat) (u : σ) (c burnIn s
     · exact ih (i + 1) _ (fun s hs => by cases hs; exact hst) d hd
 
 end schedule
+/-! ### `System.__init__`: the insertion-ordered dictionary keyed by name -/
+
+section dict
+variable {κ β : Type} [BEq κ] [LawfulBEq κ]
+
+theorem any_key_iff (d : List (κ × β)) (k : κ) : d.any (fun e => e.1 == k) = true ↔ k ∈ d.map (·.1) := by
+  simp only [List.any_eq_true, List.mem_map, beq_iff_eq]
+
+theorem dictSet_keys (d : List (κ × β)) (k : κ) (v : β) :
+    (dictSet d k v).map (·.1) = if k ∈ d.map (·.1) then d.map (·.1) else d.map (·.1) ++ [k] := by
+  unfold dictSet
+  by_cases h : k ∈ d.map (·.1)
+  · rw [if_pos ((any_key_iff d k).mpr h), if_pos h, List.map_map]
+    refine List.map_congr_left (fun e _ => ?_)
+    simp only [Function.comp]
+    split <;> rfl
+  · have : ¬ d.any (fun e => e.1 == k) = true := fun h' => h ((any_key_iff d k).mp h')
+    rw [if_neg this, if_neg h]; simp
+
+theorem lookup_map_replace (d : List (κ × β)) (k n : κ) (v : β) :
+    (d.map (fun e => if e.1 == k then (e.1, v) else e)).lookup n
+      = if n == k then (if d.any (fun e => e.1 == k) then some v else none) else d.lookup n := by
+  induction d with
+  | nil => simp
+  | cons e es ih =>
+    obtain ⟨ek, ev⟩ := e
+    simp only [List.map_cons, List.any_cons]
+    by_cases hek : ek = k
+    · subst hek
+      by_cases hn : n = ek
+      · subst hn; simp
+      · have : (n == ek) = false := by simpa using hn
+        simp only [beq_self_eq_true, if_true, List.lookup_cons, this, ih, Bool.false_eq_true, if_false]
+    · have hek' : (ek == k) = false := by simpa using hek
+      by_cases hn : n = k
+      · subst hn
+        have : (n == ek) = false := by simpa using (fun h => hek h.symm)
+        simp only [hek', Bool.false_eq_true, if_false, List.lookup_cons, this, ih, beq_self_eq_true, if_true, Bool.false_or]
+      · have hn' : (n == k) = false := by simpa using hn
+        simp only [hek', Bool.false_eq_true, if_false, List.lookup_cons, ih, hn']
+
+theorem dictSet_lookup (d : List (κ × β)) (k n : κ) (v : β) :
+    (dictSet d k v).lookup n = if n == k then some v else d.lookup n := by
+  unfold dictSet
+  by_cases h : d.any (fun e => e.1 == k) = true
+  · rw [if_pos h, lookup_map_replace, if_pos h]
+  · rw [if_neg h, List.lookup_append]
+    by_cases hn : n = k
+    · subst hn
+      have : d.lookup n = none := by
+        rw [List.lookup_eq_none_iff]
+        intro p hp
+        simp only [bne_iff_ne, ne_eq]
+        intro hnp
+        exact h (List.any_eq_true.mpr ⟨p, hp, by simp [hnp]⟩)
+      simp [this]
+    · have hn' : (n == k) = false := by simpa using hn
+      simp [hn', List.lookup_cons]
+
+theorem systemInit_lookup_aux (obs d : List (κ × β)) (n : κ) :
+    (obs.foldl (fun d o => dictSet d o.1 o.2) d).lookup n = (obs.reverse.lookup n).or (d.lookup n) := by
+  induction obs generalizing d with
+  | nil => simp
+  | cons o os ih =>
+    rw [List.foldl_cons, ih, dictSet_lookup, List.reverse_cons, List.lookup_append]
+    obtain ⟨ok, ov⟩ := o
+    cases h1 : os.reverse.lookup n with
+    | some x => simp
+    | none =>
+      simp only [Option.none_or, List.lookup_cons, List.lookup_nil]
+      cases h2 : (n == ok) <;> simp
+
+/-- the entry stored under a name is the LAST observable given with that name -/
+theorem systemInit_lookup (obs : List (κ × β)) (n : κ) : (systemInit obs).lookup n = obs.reverse.lookup n := by
+  simp [systemInit, systemInit_lookup_aux]
+
+theorem systemInit_keys_aux (obs d : List (κ × β)) :
+    (obs.foldl (fun d o => dictSet d o.1 o.2) d).map (·.1)
+      = (obs.map (·.1)).foldl (fun ks k => if k ∈ ks then ks else ks ++ [k]) (d.map (·.1)) := by
+  induction obs generalizing d with
+  | nil => rfl
+  | cons o os ih => rw [List.foldl_cons, ih, dictSet_keys]; rfl
+
+
+/-- the names in order of first occurrence (the key order of `{obs.name: obs for obs in observables}`) -/
+def firstOcc : List κ → List κ
+  | [] => []
+  | x :: xs => x :: (firstOcc xs).filter (fun y => !(y == x))
+
+theorem mem_firstOcc (xs : List κ) (y : κ) : y ∈ firstOcc xs ↔ y ∈ xs := by
+  induction xs with
+  | nil => simp [firstOcc]
+  | cons x xs ih =>
+    simp only [firstOcc, List.mem_cons, List.mem_filter, ih, Bool.not_eq_true', beq_eq_false_iff_ne]
+    by_cases h : y = x <;> simp [h]
+
+theorem firstOcc_nodup (xs : List κ) : (firstOcc xs).Nodup := by
+  induction xs with
+  | nil => simp [firstOcc]
+  | cons x xs ih =>
+    simp only [firstOcc, List.nodup_cons, List.mem_filter, beq_self_eq_true, Bool.not_true, Bool.false_eq_true,
+      and_false, not_false_eq_true, true_and]
+    exact ih.filter _
+
+theorem firstOcc_of_nodup (xs : List κ) (h : xs.Nodup) : firstOcc xs = xs := by
+  induction xs with
+  | nil => rfl
+  | cons x xs ih =>
+    rw [List.nodup_cons] at h
+    simp only [firstOcc, ih h.2]
+    congr 1
+    rw [List.filter_eq_self]
+    intro y hy
+    simp only [Bool.not_eq_true', beq_eq_false_iff_ne]
+    rintro rfl; exact h.1 hy
+
+theorem keyFold_eq (names ks : List κ) :
+    names.foldl (fun ks k => if k ∈ ks then ks else ks ++ [k]) ks
+      = ks ++ (firstOcc names).filter (fun y => !(ks.contains y)) := by
+  induction names generalizing ks with
+  | nil => simp [firstOcc]
+  | cons x xs ih =>
+    rw [List.foldl_cons, ih]
+    by_cases hx : x ∈ ks
+    · rw [if_pos hx]
+      congr 1
+      have hc : ks.contains x = true := by simpa using hx
+      simp only [firstOcc, List.filter_cons, hc, Bool.not_true, Bool.false_eq_true, if_false, List.filter_filter]
+      refine List.filter_congr (fun y _ => ?_)
+      by_cases hy : y = x
+      · subst hy; simp [hx]
+      · simp [hy]
+    · rw [if_neg hx]
+      have hc : ks.contains x = false := by simpa using hx
+      simp only [firstOcc, List.filter_cons, hc, Bool.not_false, if_true, List.filter_filter, List.append_assoc,
+        List.singleton_append]
+      congr 2
+      refine List.filter_congr (fun y _ => ?_)
+      by_cases hy : y = x
+      · subst hy; simp
+      · simp [hy]
+
+/-- the dictionary's keys are the names in order of first occurrence -/
+theorem systemInit_keys (obs : List (κ × β)) : (systemInit obs).map (·.1) = firstOcc (obs.map (·.1)) := by
+  simp [systemInit, systemInit_keys_aux, keyFold_eq]
+
+theorem mem_dictSet (d : List (κ × β)) (k : κ) (v : β) (e : κ × β) (h : e ∈ dictSet d k v) : e ∈ d ∨ e = (k, v) := by
+  unfold dictSet at h
+  split at h
+  · obtain ⟨e', he', rfl⟩ := List.mem_map.mp h
+    by_cases hk : e'.1 == k
+    · right; simp only [hk, if_true]; rw [beq_iff_eq.mp hk]
+    · left; simpa [hk] using he'
+  · rcases List.mem_append.mp h with h | h
+    · exact Or.inl h
+    · exact Or.inr (by simpa using h)
+
+theorem mem_systemInit_aux (obs d : List (κ × β)) (e : κ × β)
+    (h : e ∈ obs.foldl (fun d o => dictSet d o.1 o.2) d) : e ∈ d ∨ e ∈ obs := by
+  induction obs generalizing d with
+  | nil => exact Or.inl h
+  | cons o os ih =>
+    rcases ih _ h with h | h
+    · rcases mem_dictSet d o.1 o.2 e h with h | h
+      · exact Or.inl h
+      · exact Or.inr (by rw [h]; exact List.mem_cons_self ..)
+    · exact Or.inr (List.mem_cons_of_mem _ h)
+
+/-- every dictionary entry is one of the given observables (under its own name) -/
+theorem mem_systemInit (obs : List (κ × β)) (e : κ × β) (h : e ∈ systemInit obs) : e ∈ obs := by
+  rcases mem_systemInit_aux obs [] e h with h | h
+  · cases h
+  · exact h
+
+theorem systemInit_of_nodup_aux (obs d : List (κ × β)) (h : ((d ++ obs).map (·.1)).Nodup) :
+    obs.foldl (fun d o => dictSet d o.1 o.2) d = d ++ obs := by
+  induction obs generalizing d with
+  | nil => simp
+  | cons o os ih =>
+    have hnot : ¬ d.any (fun e => e.1 == o.1) = true := by
+      rw [any_key_iff]
+      intro hmem
+      simp only [List.map_append, List.map_cons] at h
+      have := (List.nodup_append.mp h).2.2 _ hmem _ (List.mem_cons_self ..)
+      exact this rfl
+    rw [List.foldl_cons, show dictSet d o.1 o.2 = d ++ [o] by simp [dictSet, hnot], ih]
+    · simp
+    · simpa using h
+
+/-- with pairwise different names nothing is merged: the dictionary is the given list -/
+theorem systemInit_of_nodup (obs : List (κ × β)) (h : (obs.map (·.1)).Nodup) : systemInit obs = obs := by
+  simpa [systemInit] using systemInit_of_nodup_aux obs [] (by simpa using h)
+
+theorem lookup_of_nodup (l : List (κ × β)) (h : (l.map (·.1)).Nodup) (e : κ × β) (he : e ∈ l) :
+    l.lookup e.1 = some e.2 := by
+  induction l with
+  | nil => cases he
+  | cons p ps ih =>
+    obtain ⟨pk, pv⟩ := p
+    simp only [List.map_cons, List.nodup_cons] at h
+    rcases List.mem_cons.mp he with rfl | he'
+    · simp
+    · have hne : (e.1 == pk) = false := by
+        simp only [beq_eq_false_iff_ne, ne_eq]
+        rintro rfl
+        exact h.1 (List.mem_map.mpr ⟨e, he', rfl⟩)
+      simp only [List.lookup_cons, hne]
+      exact ih h.2 he'
+
+theorem lookup_map_snd {γ : Type} (l : List (κ × β)) (g : κ × β → γ) (n : κ) :
+    (l.map (fun e => (e.1, g e))).lookup n = (l.find? (fun e => n == e.1)).map g := by
+  induction l with
+  | nil => rfl
+  | cons p ps ih =>
+    simp only [List.map_cons, List.lookup_cons, List.find?_cons]
+    cases h : (n == p.1) <;> simp [ih]
+
+theorem lookup_zip_at {γ : Type} (k₁ k₂ : List κ) (n : κ) (hn : n ∉ k₁) (ss : List γ) (s : γ)
+    (hs : ss[k₁.length]? = some s) : ((k₁ ++ n :: k₂).zip ss).lookup n = some s := by
+  induction k₁ generalizing ss with
+  | nil =>
+    cases ss with
+    | nil => simp at hs
+    | cons t ts => simp at hs; simp [hs]
+  | cons k ks ih =>
+    cases ss with
+    | nil => simp at hs
+    | cons t ts =>
+      have hne : (n == k) = false := by
+        simp only [beq_eq_false_iff_ne, ne_eq]
+        rintro rfl; exact hn (List.mem_cons_self ..)
+      simp only [List.cons_append, List.zip_cons_cons, List.lookup_cons, hne]
+      exact ih (fun h => hn (List.mem_cons_of_mem _ h)) ts (by simpa using hs)
+
+end dict
 end QV.Stats
